@@ -28,7 +28,7 @@ func encoderInstance(c *Ctx, an *Analysis, pkgRel string, tn *types.Named) (recv
 // struct value (what a parser or a caller writing the exported fields can produce).
 func encoderInstanceOpt(c *Ctx, an *Analysis, pkgRel string, tn *types.Named, anyStruct bool) (recv AV, st DNF, how string, ok bool) {
 	name := tn.Obj().Name()
-	if ctor := c.fnOpt(pkgRel, "New"+name); !anyStruct && ctor != nil && ctor.Signature.Results().Len() >= 1 {
+	if ctor := thinTarget(c.fnOpt(pkgRel, "New"+name)); !anyStruct && ctor != nil && ctor.Signature.Results().Len() >= 1 {
 		if p, isP := ctor.Signature.Results().At(0).Type().(*types.Pointer); isP && types.Identical(p.Elem(), tn) {
 			r, s, _, ok := ctorInstance(an, ctor)
 			if ok {
